@@ -1616,6 +1616,187 @@ fn spec_unpack(ts: &[Option<usize>], it: &It) -> Option<Vec<String>> {
 }
 
 // ---------------------------------------------------------------------------------------------
+// chained cases: a value produced by an ellipsis pattern / a range index (a *slice* that shares
+// storage with a longer container) is then used as the subject of further unpacking, `for`
+// arguments and matching, with fewer, equal and more targets than it has elements.  A slice is a
+// value: its own length (the model has no storage, so any read past the slice's end shows).
+
+fn seq_elems(v: &V) -> Option<Vec<V>> {
+    match v {
+        V::T(xs) | V::L(xs) => Some(xs.clone()),
+        V::S(s) if s.is_ascii() => Some(s.chars().map(|c| V::S(c.to_string())).collect()),
+        _ => None,
+    }
+}
+fn sub_seq(v: &V, from: usize, to: usize) -> V {
+    match v {
+        V::T(xs) => V::T(xs[from..to].to_vec()),
+        V::L(xs) => V::L(xs[from..to].to_vec()),
+        V::S(s) => V::S(s[from..to].to_string()),
+        _ => unreachable!(),
+    }
+}
+fn none_v() -> V {
+    V::S("none".into())
+}
+/// `(d..., <k fixed>)`
+fn lead(v: &V, k: usize) -> V {
+    match seq_elems(v) {
+        Some(xs) if xs.len() >= k => sub_seq(v, 0, xs.len() - k),
+        _ => none_v(),
+    }
+}
+/// `(<k fixed>, d...)`
+fn trail(v: &V, k: usize) -> V {
+    match seq_elems(v) {
+        Some(xs) if xs.len() >= k => sub_seq(v, k, xs.len()),
+        _ => none_v(),
+    }
+}
+/// `v[a..b]` (b = None: open end): bounds are clamped
+fn ridx(v: &V, a: usize, b: Option<usize>) -> Option<V> {
+    let n = seq_elems(v)?.len();
+    let start = a.min(n);
+    let end = b.unwrap_or(n).max(start).min(n);
+    Some(sub_seq(v, start, end))
+}
+
+struct Producer {
+    name: &'static str,
+    setup: &'static str,
+    code: &'static str,
+    expect: fn(&V) -> Option<V>,
+}
+
+fn producers() -> Vec<Producer> {
+    vec![
+        Producer { name: "(d..., _, _)", setup: "", code: "  d = match s\n    (d..., _, _) then d\n    else 'none'\n", expect: |v| Some(lead(v, 2)) },
+        Producer { name: "(d..., _)", setup: "", code: "  d = match s\n    (d..., _) then d\n    else 'none'\n", expect: |v| Some(lead(v, 1)) },
+        Producer { name: "(_, d...)", setup: "", code: "  d = match s\n    (_, d...) then d\n    else 'none'\n", expect: |v| Some(trail(v, 1)) },
+        Producer { name: "(_, _, d...)", setup: "", code: "  d = match s\n    (_, _, d...) then d\n    else 'none'\n", expect: |v| Some(trail(v, 2)) },
+        Producer { name: "(d...)", setup: "", code: "  d = match s\n    (d...) then d\n    else 'none'\n", expect: |v| Some(lead(v, 0)) },
+        Producer {
+            name: "((d..., _), _)",
+            setup: "",
+            code: "  d = match s\n    ((d..., _), _) then d\n    else 'none'\n",
+            expect: |v| match seq_elems(v) {
+                Some(xs) if xs.len() == 2 && seq_elems(&xs[0]).is_some_and(|ys| !ys.is_empty()) => Some(lead(&xs[0], 1)),
+                _ => Some(none_v()),
+            },
+        },
+        Producer { name: "s[0..2]", setup: "", code: "  d = s[0..2]\n", expect: |v| ridx(v, 0, Some(2)) },
+        Producer { name: "s[1..]", setup: "", code: "  d = s[1..]\n", expect: |v| ridx(v, 1, None) },
+        Producer { name: "s[..1]", setup: "", code: "  d = s[..1]\n", expect: |v| ridx(v, 0, Some(1)) },
+        Producer { name: "s[1..3]", setup: "", code: "  d = s[1..3]\n", expect: |v| ridx(v, 1, Some(3)) },
+        Producer {
+            name: "|(h..., _)| h",
+            setup: "hd = |(h..., _)| h\n",
+            code: "  d = hd s\n",
+            expect: |v| match seq_elems(v) {
+                Some(xs) if !xs.is_empty() && !matches!(v, V::S(_)) => Some(lead(v, 1)),
+                _ => None,
+            },
+        },
+        Producer {
+            name: "(d..., _) twice",
+            setup: "",
+            code: "  d = match s\n    (d..., _) then d\n    else 'none'\n  d = match d\n    (d..., _) then d\n    else 'none'\n",
+            expect: |v| Some(lead(&lead(v, 1), 1)),
+        },
+        Producer {
+            name: "s[..3] then (_, d...)",
+            setup: "",
+            code: "  d = s[..3]\n  d = match d\n    (_, d...) then d\n    else 'none'\n",
+            expect: |v| ridx(v, 0, Some(3)).map(|w| trail(&w, 1)),
+        },
+        Producer {
+            name: "(_, d...) then d[..2]",
+            setup: "",
+            code: "  d = match s\n    (_, d...) then d\n    else 'none'\n  d = d[..2]\n",
+            expect: |v| ridx(&trail(v, 1), 0, Some(2)),
+        },
+    ]
+}
+
+const CHAIN_ARMS: &str = "arms 5 e (arm ((one (seq ((id 0 -) (id 1 -)) 2 ()))) -) (arm ((one (seq () 0 ((id 1 -))))) -) (arm ((one (id 0 -))) -)";
+
+impl Ctx {
+    fn run_chain(&mut self, pr: &Producer, subjects: &[V]) {
+        let script = format!(
+            "{}f = |s|\n{}  k0 = 'U'\n  k1 = 'U'\n  k0, k1 = d\n  c2 = (k0, k1)\n  k0, k1, k2, k3 = d\n  c4 = (k0, k1, k2, k3)\n  out = []\n  for m0, m1, m2 in (d, d)\n    out.push (m0, m1, m2)\n  mm = match d\n    (n0, n1, n2...) then (0, n0, n1, n2)\n    (n0..., n1) then (1, n0, n1)\n    n0 then (2, n0)\n  (d, c2, c4, out, mm)\nh = |s|\n  try\n    f s\n  catch err\n    ('E', \"{{err}}\")\nh\n",
+            pr.setup, pr.code
+        );
+        let mut koto = Koto::default();
+        let h = match koto.compile_and_run(script.as_str()) {
+            Ok(h) => h,
+            Err(e) => {
+                self.compile_fail += 1;
+                self.rep.violation("D", "C03:compile", json!({"program": script, "error": e.to_string(), "origin": "chain"}));
+                return;
+            }
+        };
+        assert!(self.drv.ask(CHAIN_ARMS).starts_with("ok"));
+        for v in subjects {
+            let Some(dv) = (pr.expect)(v) else {
+                self.rep.bump("chain_skipped_not_applicable");
+                continue;
+            };
+            let d = dv.canon();
+            let m2 = self.drv.ask(&format!("ma (0 1) {}", d));
+            let m4 = self.drv.ask(&format!("ma (0 1 2 3) {}", d));
+            let mf = self.drv.ask(&format!("for (0 1 2) (t {} {})", d, d));
+            let mm = self.drv.ask(&format!("s {}", d));
+            // model texts → comparable forms
+            let want_c2 = format!("(t {})", m2.split(" = ").next().unwrap_or(""));
+            let want_c4 = format!("(t {})", m4.split(" = ").next().unwrap_or(""));
+            let want_out = {
+                let steps = mf.split(" || ").next().unwrap_or("");
+                let items: Vec<String> = steps.split(" | ").filter(|x| !x.is_empty()).map(|x| format!("(t {})", x)).collect();
+                if items.is_empty() { "(l)".to_string() } else { format!("(l {})", items.join(" ")) }
+            };
+            let want_mm = {
+                let code = mm.split(" ; ").next().unwrap_or("");
+                let toks = split_vals(code.split(" T:").next().unwrap_or(""));
+                match toks.first().map(|x| x.as_str()) {
+                    Some("A0") => format!("(t i0 {} {} {})", toks[1], toks[2], toks[3]),
+                    Some("A1") => format!("(t i1 {} {})", toks[1], toks[2]),
+                    Some("A2") => format!("(t i2 {})", toks[1]),
+                    _ => code.to_string(),
+                }
+            };
+            let want = format!("(t {} {} {} {} {})", d, want_c2, want_c4, want_out, want_mm);
+            let arg = self.imp.value(v);
+            let got = match koto.call_function(h.clone(), &[arg][..]) {
+                Ok(r) => kvh::canon::value(&r),
+                Err(e) => format!("E:host:{}", e),
+            };
+            let key = format!("chain {} | {}", pr.name, v.canon());
+            self.rep.case(&key, true);
+            self.rep.bump("origin=chain");
+            let n = seq_elems(&dv).map(|x| x.len()).unwrap_or(1);
+            self.rep.bump(&format!("chain_slice_len_vs_4_targets={}", if n < 4 { "fewer-elements" } else if n == 4 { "equal" } else { "more-elements" }));
+            if self.rep.samples.len() < 10 && self.rep.evaluations % 977 == 3 {
+                self.rep.sample(json!({"chain": pr.name, "subject": v.canon(), "impl": got, "model": want}));
+            }
+            if got != want {
+                self.k_fail += 1;
+                if self.k_fail <= 6 {
+                    // (D): take/pad computed here for the 4-target assignment
+                    let spec4 = spec_unpack(&[Some(0), Some(1), Some(2), Some(3)], &It::Val(dv.clone())).map(|r| r.join(" "));
+                    self.rep.violation(
+                        "D",
+                        "C03:chain",
+                        json!({"program": format!("{}\n# call: h({})", script, v.koto()), "producer": pr.name, "subject": v.canon(),
+                               "slice_value": d, "impl": got, "model": want, "spec_4_targets": spec4,
+                               "note": "a value bound by an ellipsis pattern / range index, used as the subject of further unpacking, for-arguments and matching: implementation vs the model's value semantics (a slice has its own length; missing targets are null)"}),
+                    );
+                }
+            }
+        }
+    }
+}
+
+// ---------------------------------------------------------------------------------------------
 // corpus scripts: `#: expected output line`
 
 #[derive(Clone, Default)]
@@ -1828,6 +2009,21 @@ fn main() {
         }
     }
     cx.rep.extra.insert("guarded_last_sets".into(), json!(gl.len()));
+
+    // --- 2d. chained two-step cases (slices used as subjects)
+    {
+        let mut chain_subjects: Vec<V> = exh.clone();
+        for t in ["", "a", "ab", "abc", "abcd", "abcde"] {
+            chain_subjects.push(V::S(t.into()));
+        }
+        chain_subjects.push(V::T((0..6).map(V::I).collect()));
+        chain_subjects.push(V::L((0..6).map(V::I).collect()));
+        let prs = producers();
+        for pr in &prs {
+            cx.run_chain(pr, &chain_subjects);
+        }
+        cx.rep.extra.insert("chain_producers".into(), json!(prs.iter().map(|p| p.name).collect::<Vec<_>>()));
+    }
 
     // --- 3. random pattern sets
     let n_random = if thorough { 3000 } else { 700 };
